@@ -206,7 +206,7 @@ Proof.
   destruct (find_change sn chs) as [c|] eqn:El; cbn [snd].
   - apply find_change_in in El. destruct El as [El Hsn]. assert (Pc : P c) by (apply Hi; [assumption|rewrite Hsn; assumption]).
     apply Forall_forall. intros d Hd. apply in_flat_map in Hd. destruct Hd as [f [_ Hd]].
-    destruct (f <? nfrags cf c); [|contradiction]. destruct Hd as [<-|[]].
+    destruct ((1 <=? f) && (f <=? nfrags cf c)); [|contradiction]. destruct Hd as [<-|[]].
     unfold data_dg; cbn. repeat constructor. exact Pc.
   - constructor; [|constructor]. unfold data_dg; cbn. repeat constructor.
 Qed.
@@ -326,11 +326,9 @@ Proof.
   2:{ cbn. repeat split. repeat constructor. }
   destruct (find (fun f => frag_sn f =? s) (wp_frags w)) as [f0|] eqn:Ef0.
   2:{ cbn. repeat split. repeat constructor. }
-  match goal with |- context [match ?l with [] => _ | _ :: _ => _ end] => destruct l as [|b t] end.
-  - cbn. repeat split. repeat constructor.
-  - cbn. repeat split. constructor; [exact I|]. constructor; [|constructor]. cbn.
-    apply find_some in Ef0. destruct Ef0 as [Hin Heq]. apply Z.eqb_eq in Heq. unfold frag_sn in Heq. rewrite <- Heq.
-    apply PQ. rewrite Forall_forall in Hf. apply Hf. assumption.
+  cbn [fst snd wp_hr wp_frags]. repeat split. constructor; [exact I|]. constructor; [|constructor]. cbn [data_sub].
+  apply find_some in Ef0. destruct Ef0 as [Hin Heq]. apply Z.eqb_eq in Heq. unfold frag_sn in Heq. rewrite <- Heq.
+  apply PQ. rewrite Forall_forall in Hf. apply Hf. assumption.
 Qed.
 
 Lemma on_hb_WOk cf w f l c pres w1 out :
@@ -627,7 +625,7 @@ Qed.
 Lemma change_eqb_refl c : change_eqb c c = true.
 Proof. unfold change_eqb. rewrite !Z.eqb_refl. reflexivity. Qed.
 Lemma frag_eqb_refl f : frag_eqb f f = true.
-Proof. unfold frag_eqb. rewrite change_eqb_refl, Z.eqb_refl. reflexivity. Qed.
+Proof. unfold frag_eqb. rewrite !Z.eqb_refl. reflexivity. Qed.
 
 Lemma push_frag_idem w f : push_frag (push_frag w f) f = push_frag w f.
 Proof.
